@@ -104,7 +104,13 @@ def check(ctx) -> None:
     tables = {g.node.args.vararg.arg} if g.node.args.vararg else set(g.params)
     bad = []
     n_sub = 0
-    total_names = {n.target.elts[1].id for n in own_nodes(g.node) if isinstance(n, ast.For) and isinstance(n.target, ast.Tuple) and len(n.target.elts) == 2 and isinstance(n.target.elts[1], ast.Name) and "enumerate(total_atoms" in unparse(n.iter)}
+    # the per-condition totals: the local bound to a comprehension over the condition tables
+    totals_var = None
+    for n in own_nodes(g.node):
+        if isinstance(n, ast.Assign) and len(n.targets) == 1 and isinstance(n.targets[0], ast.Name) and isinstance(n.value, ast.ListComp) and isinstance(n.value.generators[0].iter, ast.Name) and n.value.generators[0].iter.id in tables:
+            totals_var = n.targets[0].id
+    ctx.require(totals_var is not None, "get_largest_condition no longer computes per-condition totals by a comprehension over the tables")
+    total_names = {n.target.elts[1].id for n in own_nodes(g.node) if isinstance(n, ast.For) and isinstance(n.target, ast.Tuple) and len(n.target.elts) == 2 and isinstance(n.target.elts[1], ast.Name) and isinstance(n.iter, ast.Call) and getattr(n.iter.func, "id", "") == "enumerate" and n.iter.args and isinstance(n.iter.args[0], ast.Name) and n.iter.args[0].id == totals_var}
     for n in ast.walk(loops[0]):
         if isinstance(n, ast.Subscript) and isinstance(n.value, ast.Subscript) and isinstance(n.value.value, ast.Name) and n.value.value.id in tables:
             n_sub += 1
@@ -118,7 +124,8 @@ def check(ctx) -> None:
     for b in bad:
         ctx.finding("C10-A2", "ExtractMCS.get_largest_condition:cross-row-access", g.loc(b), "table access %s does not use the current row index %r: data of another reaction is read" % (unparse(b), row))
     ctx.require(n_sub >= 4, "fewer than 4 table subscripts in get_largest_condition")
-    apps = [n for n in ast.walk(loops[0]) if isinstance(n, ast.Call) and isinstance(n.func, ast.Attribute) and n.func.attr == "append" and unparse(n.func.value) == "result"]
+    ret_names = {r.value.id for r in own_nodes(g.node) if isinstance(r, ast.Return) and isinstance(r.value, ast.Name)}
+    apps = [n for n in ast.walk(loops[0]) if isinstance(n, ast.Call) and isinstance(n.func, ast.Attribute) and n.func.attr == "append" and isinstance(n.func.value, ast.Name) and n.func.value.id in ret_names]
     ctx.require(apps, "get_largest_condition no longer appends to result")
     for a in apps:
         arg = a.args[0]
@@ -136,7 +143,7 @@ def check(ctx) -> None:
         if not ok:
             ctx.finding("C10-A2", "ExtractMCS.get_largest_condition:fabricated-record", g.loc(a), "the appended record is not an element conditions[c][row] of the input tables")
     # total_atoms_conditions computed per condition in order
-    tac = [v for _, v, _i in assignments_to(g, "total_atoms_conditions")]
+    tac = [v for _, v, _i in assignments_to(g, totals_var)]
     ok = len(tac) == 1 and isinstance(tac[0], ast.ListComp) and not tac[0].generators[0].ifs
     ctx.instance("C10-A2", "atom totals are computed per condition without filtering", g.loc(), ok=ok)
     if not ok:
@@ -152,9 +159,20 @@ def check(ctx) -> None:
         ok = False
         for c, pol in guards:
             nc = normal_compare(c, pol)
-            if nc and nc[1] == "==" and "len(" in unparse(nc[0]) and "len(" in unparse(nc[2]):
-                ns = names_in(nc[0]) | names_in(nc[2])
-                ok = "sorted_reactants" in ns and any("mol_list" in x for x in ns)
+            if nc and nc[1] == "==":
+                # len(<molecule list of fit>) == len(<sorted list of fit>): both names are bound by unpacking the result of fit()
+                def len_arg(e):
+                    return e.args[0].id if isinstance(e, ast.Call) and getattr(e.func, "id", "") == "len" and e.args and isinstance(e.args[0], ast.Name) else None
+
+                a_, b_ = len_arg(nc[0]), len_arg(nc[2])
+                if a_ and b_ and a_ != b_:
+                    pos = {}
+                    for nm in (a_, b_):
+                        for _st, v, idx in assignments_to(sm, nm):
+                            if idx is not None and isinstance(v, ast.Call) and isinstance(v.func, ast.Attribute) and v.func.attr == "fit":
+                                pos[nm] = idx
+                    # fit returns (mcs_list, sorted_parents, mol_list, other_mol): positions 1 and 2
+                    ok = sorted(pos.values()) == [1, 2]
         ctx.instance("C10-A3", "single_mcs publishes %s under equal lengths" % const_str(p.targets[0].slice), sm.loc(p), ok=ok)
         if not ok:
             ctx.finding("C10-A3", "mcs_process.single_mcs:publish-guard:%s" % const_str(p.targets[0].slice), sm.loc(p), "%s is published without the sorted list covering every molecule of the searched side" % const_str(p.targets[0].slice))
@@ -202,7 +220,8 @@ def one_per_component(ctx, f: Func, e: ast.AST, depth: int = 0):
                     loop = getattr(loop, "_parent", None)
                 if loop is None or not _split_iter(f, loop.iter):
                     return "unknown", "append outside a loop over the components"
-                g = cfg.guards(cfg.node_of(c))
+                outer = {id(x) for x, _ in cfg.guards(cfg.node_of(loop))}
+                g = [(x, pol) for x, pol in cfg.guards(cfg.node_of(c)) if id(x) not in outer]
                 if g:
                     return "no", "components are appended only under %s" % " and ".join(unparse(x)[:40] for x, _ in g)
             return "yes", "appended once per component"
